@@ -224,7 +224,7 @@ CONTRACTS += [
         name="sequence_equal", props=["C06"], file=OPS + "_sequenceequal.py", func="sequence_equal_",
         call="sequence_equal_(second, comparer)(source)", params={"comparer": "opt:callback", "n": "const:2"},
         sources=("source", "second"),
-        spec="specs.c06:sequence_equal",
+        spec="specs.c06:sequence_equal", live="not s.done_[i]",
         cells={"donel": "cell:bool", "doner": "cell:bool", "ql": "seq", "qr": "seq"},
         spec_args={"q": "list:seq", "done_": "list:bool", "term": "bool"},
         # at most one side has unmatched elements
